@@ -104,10 +104,11 @@ class Program:
                 raise AnalysisError(f"override for unknown module {rel}")
         # one spelling for behaviour-preserving variants (canon.py); positions of the source are kept
         if not os.environ.get("SRCHECK_NO_CANON"):
-            from .canon import canonicalise, module_string_constants, package_signatures
+            from .canon import canonicalise, identifiers, module_string_constants, package_signatures
 
             signatures = package_signatures([m.tree for m in self.modules.values()])
             constants = {name: module_string_constants(m.tree) for name, m in self.modules.items()}
+            mentioned = {name: identifiers(m.tree) for name, m in self.modules.items()}
             for name, m in self.modules.items():
                 # string constants imported by name from another module of the package
                 imported: Dict[str, str] = {}
@@ -123,7 +124,8 @@ class Program:
                         for a in st.names:
                             if a.name in constants.get(src, {}):
                                 imported[a.asname or a.name] = constants[src][a.name]
-                m.tree = canonicalise(m.tree, signatures, imported)
+                foreign = set().union(*[ids for other, ids in mentioned.items() if other != name])
+                m.tree = canonicalise(m.tree, signatures, imported, foreign)
 
     def with_override(self, relpath: str, src: str) -> "Program":
         over = dict(self.overrides)
